@@ -9,7 +9,7 @@ table = subprocess.run(['python3', '/verif/tools/seeded_table.py'], capture_outp
 summary = table.stderr.strip().splitlines()[-1]
 text = '''### 12.7 Seeded changes (independent sub-agents, property text only) and which check catches which
 
-Four rounds, 160 changes (eight per property), each written by a fresh sub-agent that was given only the
+Five rounds, 200 changes (ten per property), each written by a fresh sub-agent that was given only the
 property's entry of `properties.jsonl` and its own scratch worktree of /repo (nothing from /verif), each
 confirmed by me (`git apply` on a clean checkout; the demo passes without and fails with the change; the
 477 tests still pass; `git checkout -- .`): `seeded/<id>/{patch.diff, demo.py, meta.json, result.json,
@@ -38,7 +38,22 @@ What each round found, on its FIRST run against the machinery as it stood, and w
   changes" + whole-value validators in the driver; C15_6 (tuple keys in dict error paths) → odd keys in the
   driver; C19_6 (`load` strips the bytes: only BSON documents whose length byte is whitespace) → contract
   for `Config.load` + a document-size sweep in the driver.
-* **Round 4 (`_7`, `_8`):** see the table (run against the final machinery).
+* **Round 4 (`_7`, `_8`; prompt asked for changes that are as hard to notice as possible): 26/40.**  Misses and what
+  they led to: C02_7/C02_8 (YAML root key equal to a field name; default key file preferred over the parent's)
+  were caught by contracts that were only tagged for C04/C03 → the format clauses now also serve C02, the
+  key-file resolution clauses C02/C19; C03_8 → class-level key files and renaming in the C03 driver; C07_8 (a
+  provider cache that keeps the key) → the C07 driver walks the whole object graph after close; C09_8 →
+  digest-looking plaintexts; C12_7/C13_8 → empty constant defaults and factories that hand out one shared
+  object; C15_8 → `ListProxy._validate` clause "an item is linked before it is validated" + ready-made
+  configuration objects in the driver; C16_7/C16_8 → the parser must accept what the field accepts, ignore
+  names that are prefixes of other destinations; C17_8 → reflected operators; C18_7 → declaration order of
+  includes and nested scopes (independent reference merge in the driver); C19_7/C19_8 → `os.path` models,
+  `KeyFile.__enter__/__exit__` clauses also serve C19/C03, destination names and key-file failure histories.
+* **Round 5 (`_9`, `_10`; interactions, later steps of a history, boundaries): 34/40.**  Misses: C01_9 (choices
+  compared after case folding) → choices together with transforms; C06_10 → dotted paths that reach into
+  container fields + a raise clause on `Config.__setitem__`; C07_10 → almost-valid key files; C14_10 → every
+  schema construction route must give the documented variable names; C19_9 → values outside a format's domain
+  (which also found a genuine defect, §12.5); **C17_9 was first *proved*** → §12.6b.
 
 An *undecided* outcome (exit 2: a changed function left the verifier's subset and the bounded driver saw
 nothing) is counted as a miss.
